@@ -1,6 +1,7 @@
 package harness
 
 import (
+	"bytes"
 	"fmt"
 	"os"
 	"path/filepath"
@@ -39,14 +40,24 @@ func viewOfRec(r Rec) string {
 // c01Command: obiconvert on a real file (plain or compressed, or redirected to stdin, which is
 // the C kseq reader) must deliver the records of the file.
 func c01Command(rc *RunCtx, t *simrt.Tape) {
-	fc := genFile(t, 25, false)
+	maxRecs := 25
+	if t.Choose(3) == 2 {
+		maxRecs = 140 // files of several 4 KiB blocks
+	}
+	fc := genFile(t, maxRecs, false)
 	format := fc.Shape.Format
 	viaStdin := format <= fmFastq && t.Choose(3) == 2
+	viaPipe := false
+	aligned := false
 	codec := t.Choose(5)
 	if viaStdin {
 		codec = t.Choose(2) // zlib handles plain and gzip
-		// the kseq parser has its own idea of an identifier / comment split; records are
-		// compared on id, sequence and qualities only
+		viaPipe = t.Choose(2) == 1
+		// the C reader refills a fixed 4 KiB buffer: put a delimiter of some record on, just
+		// before or just after a refill boundary
+		if t.Choose(3) != 0 {
+			aligned = alignToBoundary(t, fc)
+		}
 	}
 	p := drawParCfg(t, len(fc.Recs))
 	dir := filepath.Join(rc.Dir, fmt.Sprintf("t%d", rc.Index))
@@ -65,6 +76,16 @@ func c01Command(rc *RunCtx, t *simrt.Tape) {
 	if viaStdin {
 		spec.Stdin = in
 		transport = "stdin-kseq"
+		if viaPipe {
+			spec.Stdin = "@inherited"
+			spec.StdinData = compress(codec, fc.Text)
+			spec.StdinPipe = true
+			spec.StdinFailAfter = -1
+			transport = "stdin-kseq-pipe"
+		}
+		if aligned {
+			rc.Probe("delimiter_on_4KiB_refill_boundary")
+		}
 	} else {
 		args = append(args, in)
 	}
@@ -111,6 +132,55 @@ func c01Command(rc *RunCtx, t *simrt.Tape) {
 	}
 }
 
+// alignToBoundary lengthens the definition of the first record until a delimiter of a later
+// record (first byte of its header, end of its identifier, end of its header line, end of its
+// first sequence line) sits at offset 4095+d (d = -1, 0, 1) modulo 4096 of the text.
+func alignToBoundary(t *simrt.Tape, fc *fileCase) bool {
+	if len(fc.Recs) < 3 || fc.Shape.Format > fmFastq {
+		return false
+	}
+	j := 1 + t.Choose(len(fc.Recs)-1)
+	which := t.Choose(4)
+	d := t.Choose(3) - 1
+	marker := ">"
+	if fc.Shape.Format == fmFastq {
+		marker = "@"
+	}
+	key := []byte("\n" + marker + fc.Recs[j].ID)
+	for iter := 0; iter < 6; iter++ {
+		h := bytes.Index(fc.Text, key)
+		if h < 0 {
+			return false
+		}
+		h++
+		pos := h
+		nl := h + bytes.IndexByte(fc.Text[h:], '\n')
+		switch which {
+		case 1:
+			pos = h + 1 + len(fc.Recs[j].ID)
+		case 2:
+			pos = nl
+		case 3:
+			e := bytes.IndexByte(fc.Text[nl+1:], '\n')
+			if e < 0 {
+				return false
+			}
+			pos = nl + 1 + e
+		}
+		want := (4095 + d) % 4096
+		s := ((want-pos)%4096 + 4096) % 4096
+		if s == 0 && pos >= 4095 {
+			return true
+		}
+		if s == 0 {
+			s = 4096
+		}
+		fc.Recs[0].Def += strings.Repeat("x", s)
+		renderFile(fc)
+	}
+	return false
+}
+
 // c17Command: obiconvert on a truncated or bit-flipped compressed file must exit non-zero
 // (or, for a flip only, output every record).
 func c17Command(rc *RunCtx, t *simrt.Tape) {
@@ -123,8 +193,14 @@ func c17Command(rc *RunCtx, t *simrt.Tape) {
 	format := fc.Shape.Format
 	codec := 1 + t.Choose(4)
 	viaStdin := t.Choose(3) == 2
+	viaPipe := false
 	if viaStdin {
-		codec = 1
+		// the C reader of standard input only knows gzip; through a pipe (not seekable) any
+		// damaged image must still be refused, whatever zlib makes of its first bytes
+		viaPipe = t.Choose(2) == 1
+		if !viaPipe || codec == 4 {
+			codec = 1
+		}
 	}
 	image := compress(codec, fc.Text)
 	kind := t.Choose(2)
@@ -162,13 +238,50 @@ func c17Command(rc *RunCtx, t *simrt.Tape) {
 	if viaStdin {
 		spec.Stdin = in
 		transport = "stdin-kseq"
+		if viaPipe {
+			spec.Stdin = "@inherited"
+			spec.StdinData = data
+			spec.StdinPipe = true
+			spec.StdinFailAfter = -1
+			transport = "stdin-kseq-pipe"
+		}
 	} else {
 		if t.Choose(3) == 2 {
 			// explicit input format: no format sniffer in front of the reader
 			args = append(args, map[int]string{fmFasta: "--fasta", fmFastq: "--fastq"}[format])
 			transport = "file-explicit-format"
 		}
-		args = append(args, in)
+		// the damaged file alone, or among intact files (before, after, both; --no-order):
+		// one unreadable input must fail the command however many others are fine
+		switch t.Choose(5) {
+		case 2, 3, 4:
+			mk := func(name string, base int) string {
+				recs := genRecs(t, 1+t.Choose(6), base, format == fmFastq, 10, 60)
+				f := filepath.Join(dir, name+ext)
+				if format == fmFastq {
+					os.WriteFile(f, fastqText(recs, true), 0644)
+				} else {
+					os.WriteFile(f, fastaText(recs, true), 0644)
+				}
+				return f
+			}
+			files := []string{in}
+			switch t.Choose(3) {
+			case 0:
+				files = []string{mk("before", 5000), in}
+			case 1:
+				files = []string{in, mk("after", 6000)}
+			default:
+				files = []string{mk("before", 5000), in, mk("after", 6000)}
+			}
+			if t.Choose(3) == 2 {
+				args = append(args, "--no-order")
+			}
+			args = append(args, files...)
+			transport += fmt.Sprintf("-among-%d-files", len(files))
+		default:
+			args = append(args, in)
+		}
 	}
 	spec.Args = args
 	reg := region(k, N)
@@ -192,7 +305,17 @@ func c17Command(rc *RunCtx, t *simrt.Tape) {
 		return
 	}
 	raw, _ := os.ReadFile(out)
-	got, _ := parseObiFastx(raw)
+	all, _ := parseObiFastx(raw)
+	mine := map[string]bool{}
+	for _, r := range fc.Recs {
+		mine[r.ID] = true
+	}
+	got := all[:0:0]
+	for _, g := range all {
+		if mine[g.ID] || !strings.HasPrefix(transport, "file") || !strings.Contains(transport, "-among-") {
+			got = append(got, g)
+		}
+	}
 	complete := len(got) == len(fc.Recs)
 	if complete {
 		for i := range got {
@@ -206,7 +329,7 @@ func c17Command(rc *RunCtx, t *simrt.Tape) {
 		return
 	}
 	dec := "decoder-reported"
-	if transport != "stdin-kseq" && decoderSilent(codec, data) {
+	if !viaStdin && decoderSilent(codec, data) {
 		dec = "decoder-silent"
 	}
 	outcome := "ok-partial"
